@@ -310,4 +310,15 @@ def search(ctx: Ctx):
                         "observed": repr(out)[:300], "why": why, "tried": tried,
                         "key": "noncover-loop" if "loops" in why else None}
     ctx.notes.append(f"search: {tried} (envelope, request, shape) cases satisfy the property on the implementation")
+    # the seed material compute_l2_key works from comes out of the KeyCache: a cache that keeps a hollow or non-covering envelope makes the
+    # library derive a key that is not the chain key although compute_l2_key itself is right - the KeyCache history search of C10
+    try:
+        from . import c10
+
+        found = c10.search(ctx)
+        if found:
+            found["why"] = "through the KeyCache (seed material handed to the derivation is not what covers the request): " + str(found.get("why"))
+            return found
+    except Exception as exc:  # noqa: BLE001
+        ctx.notes.append(f"search: KeyCache history search unavailable ({type(exc).__name__})")
     return None
